@@ -29,8 +29,8 @@ def parseEntry (s : String) : Option TarEntry :=
   | [t, name, cid, link] =>
     match t.toList, unhexS name, cid.toNat?, unhexS link with
     | [c], some name, some cid, some link =>
-      let typ := if c = 'h' then 'l' else c
-      some ⟨typ, name, cid, link⟩
+      let typ := if c = 'h' then 'l' else c          -- hard links are unpacked as symbolic links
+      some ⟨typ, GoPath.isAbs name, GoPath.comps name, cid, GoPath.isAbs link, GoPath.comps link, link⟩
     | _, _, _, _ => none
   | _ => none
 
